@@ -27,6 +27,11 @@ def check_C03(run):
     bigs = [s for s in sc if '"more":2' in s or '"more":0' in s]
     bigs = bigs if thorough else run.rng.sample(bigs, 24)
     replay_validate(run, bigs, ["e2e", "-big"], "E2ETrace", E2E_TRACE, "C03 round trip with multi-MiB values", nontrivial=nt, shards=12)
+    # the bridge subprocess may be short-lived: everything it wrote before exiting must still arrive
+    from props_tables import table_replay, TR_CFG, GEN_CFG
+    be = run.generate("BridgeExitGen", GEN_CFG, ["be_scen.ndjson"])["be_scen.ndjson"]
+    table_replay(run, be, ["bridgeexit"], "BridgeExit", TR_CFG, "C03 bridge subprocess that exits after writing its replies (1 / 3 / 20 replies of 10 B .. 70 KB, read at once or slowly)",
+                 shards=6, nontrivial=lambda c: '"n":20' in c)
     run.write_evidence("model_checking",
         "scenarios = TLC-enumerated set Scenarios of spec/E2E.tla (4 transports x call sequences of length 1-2 with 0-3 continues-replies and a final reply / custom error / standard error); every parameter and reply value is a generated JSON object of adversarial classes (integers beyond 2^53, exponent forms, -0, NUL/quote/control/non-BMP/U+2028 strings, null members, empty and nested containers, nesting up to 950, sizes around the 4 KiB buffer and up to 4 MiB) passed as raw JSON; the recorder maps each observed value to its token by canonical comparison (members order-insensitively, strings code point by code point, numbers digit for digit); non-trivial = the client received at least two replies",
         exhaustive=False,
